@@ -218,6 +218,10 @@ class Recorder(BaseAsyncRPCClient):
             CUR.reports.append((tag, str(msg)))
             for hook in list(CUR.report_hooks):
                 hook(CUR, tag, str(msg))
+            if tag in ("SUCCESS", "FAIL") and os.environ.get("VERIF_REPORT_GATE", "1") == "1":
+                # the reporter is another process: the report of a finished run is a round trip during
+                # which the director's other tasks go on (a scheduling point like any other)
+                await CUR.gate(f"report:{tag}")
             if tag in ("START", "SKIP", "SUCCESS", "FAIL", "DEFERRED", "REMOVE", "ERROR", "NOSKIP", "DROPAMEND", "PHASE"):
                 text = str(msg)
                 if tag == "ERROR" and pages:
